@@ -670,7 +670,7 @@ func (w *WAL) AppendBatch(entries []*Entry) (uint64, error) {
 
 	// Calculate total size needed for all entries to ensure atomic writing
 	totalSize := 0
-	for _, entry := range entries {
+	for i, entry := range entries {
 		// Calculate size for each entry: Header(7) + Payload
 		entryType := entry.Type
 
@@ -678,6 +678,13 @@ func (w *WAL) AppendBatch(entries []*Entry) (uint64, error) {
 		payloadSize := 1 + 8 + 4 + len(entry.Key)
 		if entryType != OpTypeDelete {
 			payloadSize += 4 + len(entry.Value)
+		}
+
+		// Reject the whole batch before anything is written: batch entries
+		// are not fragmented, and a failure in the middle of the loop below
+		// would leave the leading entries of the batch in the log.
+		if payloadSize > MaxRecordSize {
+			return 0, fmt.Errorf("failed to write entry %d: record too large: %d > %d", i, payloadSize, MaxRecordSize)
 		}
 
 		totalSize += HeaderSize + payloadSize
@@ -758,7 +765,7 @@ func (w *WAL) AppendBatchWithSequence(entries []*Entry, startSequence uint64) (u
 
 	// Calculate total size needed for all entries to ensure atomic writing
 	totalSize := 0
-	for _, entry := range entries {
+	for i, entry := range entries {
 		// Calculate size for each entry: Header(7) + Payload
 		entryType := entry.Type
 
@@ -766,6 +773,13 @@ func (w *WAL) AppendBatchWithSequence(entries []*Entry, startSequence uint64) (u
 		payloadSize := 1 + 8 + 4 + len(entry.Key)
 		if entryType != OpTypeDelete {
 			payloadSize += 4 + len(entry.Value)
+		}
+
+		// Reject the whole batch before anything is written: batch entries
+		// are not fragmented, and a failure in the middle of the loop below
+		// would leave the leading entries of the batch in the log.
+		if payloadSize > MaxRecordSize {
+			return 0, fmt.Errorf("failed to write entry %d: record too large: %d > %d", i, payloadSize, MaxRecordSize)
 		}
 
 		totalSize += HeaderSize + payloadSize
